@@ -226,9 +226,14 @@ fn check_graph(graph: &Graph, index: &TreeIndex, write_file: bool, what: &str, e
     }
     let mut wrote = false;
     if write_file {
+        let stale_file = graph.node_count() % 2 == 1;
         let dir = out_root().join(".work").join("c14");
         let _ = std::fs::create_dir_all(&dir);
         let path = dir.join(format!("{}-{:?}.json", std::process::id(), std::thread::current().id()).replace(['(', ')'], ""));
+        // every other time the file exists already, longer than anything written here
+        if stale_file {
+            let _ = std::fs::write(&path, "stale-".repeat(60_000));
+        }
         match call_lib(|| graph.display_json(Some(&path))) {
             Err(p) => return Err(fail(&p.signature(), format!("display_json panicked: {}", p.message), json!({}))),
             Ok(Err(e)) => return Err(fail("display-json-io", format!("display_json failed: {}", e), json!({}))),
